@@ -213,32 +213,58 @@ def path_api(ctx, flavours):
             pv = F.prov(b)
             gets = [(bi, t) for bi, t in calls_in(b) if callee_name(t).endswith(']::get')]
             why = []
-            sig = []
+
+            def alts(t):
+                t = deep_unwrap(t)
+                if isinstance(t, tuple) and t and t[0] == 'join':
+                    out_ = []
+                    for x in t[1]:
+                        out_ += alts(x)
+                    return out_
+                if isinstance(t, tuple) and t and t[0] == 'aggr' and t[1] == 'tuple':
+                    return [t]
+                return [t]
+
+            def is_pos_minus_1(idx):
+                return isinstance(idx, tuple) and ((idx[0] == 'f' and isinstance(idx[1], tuple) and idx[1][0] == 'binop' and idx[1][1].startswith('Sub') and deep_unwrap(idx[1][2][0]) == POS and idx[1][2][1] == ('const', '1_usize')) or
+                                                   (idx[0] == 'binop' and idx[1].startswith('Sub') and deep_unwrap(idx[2][0]) == POS and idx[2][1] == ('const', '1_usize')))
+            idx_kinds = set()
             for bi, t in gets:
-                idx = deep_unwrap(pv.of_operand(t['args'][1]))
-                g = deep_unwrap(('call', callee_name(t), tuple(pv.of_operand(a) for a in t['args']), bi))
-                ys = []
-                for bb_i, bb in enumerate(b['blocks']):
-                    if bb['cleanup']:
+                if deep_unwrap(pv.of_operand(t['args'][0])) != EDGES:
+                    why.append('reads another list than the path edges')
+                for a_ in alts(pv.of_operand(t['args'][1])):
+                    # a (index, flag) pair selected by `position == 0` shows up as field 0 of a tuple alternative
+                    if isinstance(a_, tuple) and a_[0] == 'f' and isinstance(a_[1], tuple) and a_[1][0] in ('join', 'aggr'):
+                        for tup in alts(a_[1]):
+                            if isinstance(tup, tuple) and tup[0] == 'aggr' and tup[2]:
+                                a2 = deep_unwrap(tup[2][int(a_[2])] if a_[2].isdigit() and int(a_[2]) < len(tup[2]) else tup[2][0])
+                                idx_kinds.add('pos-1' if is_pos_minus_1(a2) else ('pos' if a2 == POS else ('0' if a2 == ('const', '0_usize') else pretty(a2))))
                         continue
-                    for s in bb['stmts']:
-                        if s['k'] == 'assign' and s['dst']['l'] == 0 and s['rv']['k'] == 'aggr' and s['rv']['ak'].endswith('Option::Some'):
-                            y = deep_unwrap(pv.of_operand(s['rv']['ops'][0]))
-                            if isinstance(y, tuple) and y[0] == 'f' and y[1] == g:
-                                ys.append(y[2])
-                sub = isinstance(idx, tuple) and ((idx[0] == 'f' and isinstance(idx[1], tuple) and idx[1][0] == 'binop' and idx[1][1].startswith('Sub') and deep_unwrap(idx[1][2][0]) == POS and idx[1][2][1] == ('const', '1_usize')) or
-                                                  (idx[0] == 'binop' and idx[1].startswith('Sub') and deep_unwrap(idx[2][0]) == POS and idx[2][1] == ('const', '1_usize')))
-                sig.append(('pos-1' if sub else ('pos' if idx == POS else pretty(idx)), tuple(ys)))
-            if sorted(sig) != sorted([('pos', ('0',)), ('pos-1', ('1',))]):
-                why.append('reads %s; expected source of edges[position] at position 0 and target of edges[position-1] afterwards' % sig)
-            else:
-                # the `pos` read is confined to position == 0
-                eqs = [bi for bi, bb in enumerate(b['blocks']) if not bb['cleanup'] and bb['term']['k'] == 'switch' and
-                       isinstance(pv.of_operand(bb['term']['op']), tuple) and pv.of_operand(bb['term']['op'])[0] == 'binop' and pv.of_operand(bb['term']['op'])[1] == 'Eq' and
-                       ('const', '0_usize') in pv.of_operand(bb['term']['op'])[2]]
-                if len(eqs) != 1:
-                    why.append('no test position == 0')
-            why += _pos_increments(F, b, 2)
+                    idx_kinds.add('pos-1' if is_pos_minus_1(a_) else ('pos' if a_ == POS else ('0' if a_ == ('const', '0_usize') else pretty(a_))))
+            if not idx_kinds <= {'pos', '0', 'pos-1'} or 'pos-1' not in idx_kinds or not (idx_kinds & {'pos', '0'}):
+                why.append('reads edges at %s; expected edges[0] (first call) and edges[position-1] (afterwards)' % sorted(idx_kinds))
+            fields = set()
+            gcalls = {bi for bi, t in gets}
+            for bb in b['blocks']:
+                if bb['cleanup']:
+                    continue
+                for s_ in bb['stmts']:
+                    if s_['k'] == 'assign' and s_['dst']['l'] == 0 and s_['rv']['k'] == 'aggr' and s_['rv']['ak'].endswith('Option::Some'):
+                        for y in alts(pv.of_operand(s_['rv']['ops'][0])):
+                            if isinstance(y, tuple) and y[0] == 'f' and isinstance(y[1], tuple) and y[1][0] == 'call' and y[1][3] in gcalls:
+                                fields.add(y[2])
+                            else:
+                                fields.add('?' + pretty(y))
+            if fields != {'0', '1'}:
+                why.append('yields fields %s of the read edge; expected its source (for the root) and its target' % sorted(fields))
+            eqs = [bi for bi, bb in enumerate(b['blocks']) if not bb['cleanup'] and bb['term']['k'] == 'switch' and
+                   isinstance(pv.of_operand(bb['term']['op']), tuple) and pv.of_operand(bb['term']['op'])[0] == 'binop' and pv.of_operand(bb['term']['op'])[1] in ('Eq', 'Ne', 'Gt', 'Lt') and
+                   ('const', '0_usize') in pv.of_operand(bb['term']['op'])[2]]
+            direct = [bi for bi, bb in enumerate(b['blocks']) if not bb['cleanup'] and bb['term']['k'] == 'switch' and deep_unwrap(pv.of_operand(bb['term']['op'])) == POS and
+                      any(v == 0 for v, _ in bb['term']['targets'])]
+            if not eqs and not direct:
+                why.append('no test position == 0')
+            why += _pos_increments(F, b, None)
             O(q, 'node iterator yields the root, then the target of each edge', not why, '; '.join(why) if why else 'ok')
         # last_node / last_edge / to_vec_*
         for name, exp_proj in (('last_node', '1'), ('first_edge', None), ('last_edge', None)):
@@ -286,23 +312,20 @@ def _pos_increments(F, b, expected):
         for s in bb['stmts']:
             if s['k'] == 'assign' and s['dst']['p'] and s['dst']['p'][-1].startswith('.1:') and strip_payload(pv.of_local(s['dst']['l'])) == P1_:
                 stores.append((bi, s))
-    if len(stores) != expected:
-        why.append('%d stores to position (expected %d)' % (len(stores), expected))
+    if (expected is None and not stores) or (expected is not None and len(stores) != expected):
+        why.append('%d stores to position (expected %s)' % (len(stores), expected if expected is not None else 'at least one'))
     for bi, s in stores:
         term = pv.of_operand(s['rv']['ops'][0]) if s['rv'].get('ops') else None
         t = term[1] if isinstance(term, tuple) and term[0] == 'f' else term
         if not (isinstance(t, tuple) and t[0] == 'binop' and t[1].startswith('Add') and ('const', '1_usize') in t[2] and ('f', P1_, '1') in [deep_unwrap(z) for z in t[2]]):
             why.append('position store is not position + 1')
-        # behind a Some edge of a get()
+        # behind the success edge of a get() (match / if let / `?`)
+        from .core import outcome_edges
         ok = False
-        for sb in sorted(cfg.reach):
-            tt = b['blocks'][sb]['term']
-            if tt['k'] == 'switch':
-                term2 = pv.of_operand(tt['op'])
-                if isinstance(term2, tuple) and term2[0] == 'discr' and isinstance(term2[1], tuple) and term2[1][0] == 'call' and term2[1][1].endswith(']::get'):
-                    ones = [tg for v, tg in tt['targets'] if v == 1]
-                    if ones and cfg.edge_dominates(sb, ones[0], bi):
-                        ok = True
+        for gbi, gt in calls_in(b, lambda t: callee_name(t).endswith(']::get')):
+            se, fe = outcome_edges(F, b, gbi)
+            if se and cfg.edge_dominates(se[0], se[1], bi):
+                ok = True
         if not ok:
             why.append('position advances without a successful read')
     return why
